@@ -312,10 +312,23 @@ pub fn limit_pair(rng: &mut Rng, class: usize, around: f64) -> (f64, f64) {
             let from = rng.range(-2.0, -0.05);
             (from, from - rng.range(0.1, 3.0))
         }
-        // from == to (unconstrained)
-        5 => {
-            let v = if rng.bool(0.5) { 0.0 } else { rng.range(-PI, PI) };
-            (v, v)
+        // from == to (unconstrained); zeros of either sign compare equal and mean the same
+        5 => match rng.usize(6) {
+            0 => (0.0, 0.0),
+            1 => (-0.0, 0.0),
+            2 => (0.0, -0.0),
+            3 => (-0.0, -0.0),
+            _ => {
+                let v = rng.range(-PI, PI);
+                (v, v)
+            }
+        },
+        // arc of positive but tiny width (a few ulps .. a nanoradian), placed at the value or elsewhere
+        8 => {
+            let w = if rng.bool(0.3) { rng.int(1, 8) as f64 * f64::EPSILON * 4.0 } else { rng.logu(1e-15, 1e-9) };
+            let f = if rng.bool(0.5) { around - w * rng.f() } else { rng.range(-PI, PI) };
+            let t = f + w;
+            if t > f { (f, t) } else { (f, f + 1e-9) }
         }
         // span >= 2pi
         6 => {
@@ -378,4 +391,16 @@ pub fn via_update_range(rng: &mut Rng, from: [f64; 6], to: [f64; 6], w: f64) -> 
     }
     c.update_range(from, to);
     c
+}
+
+/// The solver for a parameter set, built through either constructor: `new`, or `new_with_constraints`
+/// with limits that exclude nothing (from == to on every joint, or spans of more than a turn). Both must
+/// behave identically.
+pub fn make_solver(rng: &mut Rng, rp: &RParams) -> rs_opw_kinematics::kinematics_impl::OPWKinematics {
+    use rs_opw_kinematics::kinematics_impl::OPWKinematics;
+    match rng.usize(10) {
+        0 | 1 => OPWKinematics::new_with_constraints(to_params(rp), Constraints::new([0.0; 6], [0.0; 6], 0.0)),
+        2 => OPWKinematics::new_with_constraints(to_params(rp), Constraints::new([-7.0; 6], [7.0; 6], 0.0)),
+        _ => OPWKinematics::new(to_params(rp)),
+    }
 }
